@@ -40,11 +40,12 @@ Inductive op :=
 | ORtClose (c : code)                         (* Runtime.Close / CloseWithExitCode *)
 | OCompile (host : bool).                     (* Runtime.CompileModule / HostModuleBuilder.Compile *)
 
-Inductive ret := ROk | RErrDup | RErrClosed | RLook (r : option inst) | RExit (r : option code).
+Inductive ret := ROk | RErrDup | RErrClosed | RLook (r : option inst) | RExit (r : option code)
+| RPanic.   (* a Go panic escaping to the caller; the specification never returns it *)
 
 Definition ret_eqb (a b : ret) : bool :=
   match a, b with
-  | ROk, ROk | RErrDup, RErrDup | RErrClosed, RErrClosed => true
+  | ROk, ROk | RErrDup, RErrDup | RErrClosed, RErrClosed | RPanic, RPanic => true
   | RLook x, RLook y => opt_eqb x y
   | RExit x, RExit y => opt_eqb x y
   | _, _ => false
@@ -91,6 +92,7 @@ Record impl := { nmap : option (list (name * inst));  (* Store.nameToModule; Non
                  closedw : list (inst * code);        (* ModuleInstance.Closed words that are non-zero *)
                  iname : list (inst * name);          (* ModuleInstance.ModuleName *)
                  rt_closed : bool;                    (* runtime.closed != 0 *)
+                 eng_closed : bool;                   (* Engine.Close ran: compiled code of the runtime is gone *)
                  notif : list inst;                   (* instances whose CloseNotifier field is set *)
                  attached : list inst;                (* ghost: CloseNotifier was ever assigned *)
                  res_log : list inst;                 (* ghost log: ensureResourcesClosed ran (FS closed) *)
@@ -98,14 +100,15 @@ Record impl := { nmap : option (list (name * inst));  (* Store.nameToModule; Non
                  registered : list inst }.            (* ghost log: registerModule succeeded *)
 
 Definition impl0 : impl :=
-  {| nmap := Some []; mlist := []; closedw := []; iname := []; rt_closed := false;
+  {| nmap := Some []; mlist := []; closedw := []; iname := []; rt_closed := false; eng_closed := false;
      notif := []; attached := []; res_log := []; notified := []; registered := [] |}.
 
 Definition is_closed (s : impl) (i : inst) : bool := is_some (lookup i (closedw s)).
 
 Inductive micro :=
 | MChkRt                          (* runtime.failIfClosed: atomic load of runtime.closed *)
-| MBuild (n : name) (i : inst)    (* Store.instantiate: builds the private instance (Sys attached) *)
+| MTypeIDs                        (* Store.GetFunctionTypeIDs: lock; typeIDs map lookup/insert (nil after the sweep: panics) *)
+| MBuild (n : name) (i : inst)    (* Store.instantiate: builds the private instance (Sys attached); needs the engine's code *)
 | MRegister (n : name) (i : inst) (* Store.registerModule: lock; nil-map check; name check; insert; link; unlock *)
 | MAttach (i : inst)              (* InstantiateModule: m.CloseNotifier = notifier (plain write after registration) *)
 | MCas (i : inst) (c : code)      (* setExitCode: Closed.CompareAndSwap(0, ..) *)
@@ -115,10 +118,11 @@ Inductive micro :=
 | MLoad (i : inst)                (* Closed.Load *)
 | MRtCas (c : code)               (* runtime.closed.CompareAndSwap(0, ..) *)
 | MStoreClose (c : code)          (* Store.CloseWithExitCode: lock; close every listed module; nil the maps; unlock *)
+| MEngClose                       (* Engine.Close (no cache configured) *)
 | MRet (r : ret).
 
 Definition set_closedw (s : impl) (cw : list (inst * code)) : impl :=
-  {| nmap := nmap s; mlist := mlist s; closedw := cw; iname := iname s; rt_closed := rt_closed s;
+  {| nmap := nmap s; mlist := mlist s; closedw := cw; iname := iname s; rt_closed := rt_closed s; eng_closed := eng_closed s;
      notif := notif s; attached := attached s; res_log := res_log s; notified := notified s; registered := registered s |}.
 
 Definition close_fail (i : inst) (e : ret) : list micro := [MCas i 0; MDelete i; MRes i; MRet e].
@@ -127,8 +131,11 @@ Definition close_fail (i : inst) (e : ret) : list micro := [MCas i 0; MDelete i;
 Definition mstep (s : impl) (m : micro) (k : list micro) : impl * list micro :=
   match m with
   | MChkRt => if rt_closed s then (s, [MRet RErrClosed]) else (s, k)
+  | MTypeIDs => match nmap s with None => (s, [MRet RPanic]) | Some _ => (s, k) end
   | MBuild n i =>
-      ({| nmap := nmap s; mlist := mlist s; closedw := closedw s; iname := (i, n) :: iname s; rt_closed := rt_closed s;
+      if eng_closed s then (s, [MRet RErrClosed])      (* "source module must be compiled before instantiation" *)
+      else
+      ({| nmap := nmap s; mlist := mlist s; closedw := closedw s; iname := (i, n) :: iname s; rt_closed := rt_closed s; eng_closed := eng_closed s;
           notif := notif s; attached := attached s; res_log := res_log s; notified := notified s; registered := registered s |}, k)
   | MRegister n i =>
       match nmap s with
@@ -136,11 +143,11 @@ Definition mstep (s : impl) (m : micro) (k : list micro) : impl * list micro :=
       | Some m =>
           if negb (n =? 0) && is_some (lookup n m) then (s, close_fail i RErrDup)
           else ({| nmap := Some (if n =? 0 then m else (n, i) :: m); mlist := i :: mlist s; closedw := closedw s;
-                   iname := iname s; rt_closed := rt_closed s; notif := notif s; attached := attached s;
+                   iname := iname s; rt_closed := rt_closed s; eng_closed := eng_closed s; notif := notif s; attached := attached s;
                    res_log := res_log s; notified := notified s; registered := i :: registered s |}, k)
       end
   | MAttach i =>
-      ({| nmap := nmap s; mlist := mlist s; closedw := closedw s; iname := iname s; rt_closed := rt_closed s;
+      ({| nmap := nmap s; mlist := mlist s; closedw := closedw s; iname := iname s; rt_closed := rt_closed s; eng_closed := eng_closed s;
           notif := i :: notif s; attached := i :: attached s; res_log := res_log s; notified := notified s;
           registered := registered s |}, k)
   | MCas i c => if is_closed s i then (s, [MRet ROk]) else (set_closedw s ((i, c) :: closedw s), k)
@@ -153,11 +160,11 @@ Definition mstep (s : impl) (m : micro) (k : list micro) : impl * list micro :=
                     | None => Some m
                     end
                 end in
-      ({| nmap := nm; mlist := remove i (mlist s); closedw := closedw s; iname := iname s; rt_closed := rt_closed s;
+      ({| nmap := nm; mlist := remove i (mlist s); closedw := closedw s; iname := iname s; rt_closed := rt_closed s; eng_closed := eng_closed s;
           notif := notif s; attached := attached s; res_log := res_log s; notified := notified s;
           registered := registered s |}, k)
   | MRes i =>
-      ({| nmap := nmap s; mlist := mlist s; closedw := closedw s; iname := iname s; rt_closed := rt_closed s;
+      ({| nmap := nmap s; mlist := mlist s; closedw := closedw s; iname := iname s; rt_closed := rt_closed s; eng_closed := eng_closed s;
           notif := remove i (notif s); attached := attached s; res_log := i :: res_log s;
           notified := (if mem i (notif s) then i :: notified s else notified s); registered := registered s |}, k)
   | MLookup n =>
@@ -165,28 +172,31 @@ Definition mstep (s : impl) (m : micro) (k : list micro) : impl * list micro :=
   | MLoad i => (s, [MRet (RExit (lookup i (closedw s)))])
   | MRtCas c =>
       if rt_closed s then (s, [MRet ROk])
-      else ({| nmap := nmap s; mlist := mlist s; closedw := closedw s; iname := iname s; rt_closed := true;
+      else ({| nmap := nmap s; mlist := mlist s; closedw := closedw s; iname := iname s; rt_closed := true; eng_closed := eng_closed s;
                notif := notif s; attached := attached s; res_log := res_log s; notified := notified s;
                registered := registered s |}, k)
   | MStoreClose c =>
       (* the loop CASes every listed module in turn: a module is swept at most once *)
       let live := dedup (filter (fun i => negb (is_closed s i)) (mlist s)) in
       ({| nmap := None; mlist := []; closedw := map (fun i => (i, c)) live ++ closedw s; iname := iname s;
-          rt_closed := rt_closed s;
+          rt_closed := rt_closed s; eng_closed := eng_closed s;
           notif := filter (fun i => negb (mem i live)) (notif s); attached := attached s;
           res_log := live ++ res_log s;
           notified := filter (fun i => mem i (notif s)) live ++ notified s; registered := registered s |}, k)
+  | MEngClose =>
+      ({| nmap := nmap s; mlist := mlist s; closedw := closedw s; iname := iname s; rt_closed := rt_closed s; eng_closed := true;
+          notif := notif s; attached := attached s; res_log := res_log s; notified := notified s; registered := registered s |}, k)
   | MRet _ => (s, k)
   end.
 
 Definition compile (o : op) : list micro :=
   match o with
-  | OInst h n i => (if h then [MChkRt] else []) ++ [MChkRt; MBuild n i; MRegister n i; MAttach i; MRet ROk]
+  | OInst h n i => (if h then [MChkRt; MTypeIDs] else []) ++ [MChkRt; MBuild n i; MRegister n i; MAttach i; MRet ROk]
   | OLook n => [MLookup n]
   | OClose i c => [MCas i c; MDelete i; MRes i; MRet ROk]
   | OIsClosed i => [MLoad i]
-  | ORtClose c => [MRtCas c; MStoreClose c; MRet ROk]
-  | OCompile _ => [MChkRt; MRet ROk]
+  | ORtClose c => [MRtCas c; MStoreClose c; MEngClose; MRet ROk]
+  | OCompile _ => [MChkRt; MTypeIDs; MRet ROk]
   end.
 
 (* ------------------------------------------------------------------ sequential execution of the step model *)
@@ -200,7 +210,7 @@ Fixpoint exec (fuel : nat) (s : impl) (ms : list micro) : impl * option ret :=
            end
   end.
 
-Definition run_op (s : impl) (o : op) : impl * option ret := exec 12 s (compile o).
+Definition run_op (s : impl) (o : op) : impl * option ret := exec 14 s (compile o).
 
 Fixpoint run_ops (s : impl) (ops : list op) : impl * list (option ret) :=
   match ops with
@@ -290,13 +300,21 @@ Fixpoint check_all (atomic : bool) (P : config -> bool) (fuel : nat) (c : config
 
 (* an upper bound on the number of steps a configuration can still take *)
 Definition msize (m : micro) : nat :=
-  match m with MRegister _ _ => 6 | MChkRt => 2 | MCas _ _ => 2 | MRtCas _ => 2 | MLookup _ => 2 | MLoad _ => 2 | _ => 1 end.
+  match m with MRegister _ _ => 6 | MChkRt => 2 | MCas _ _ => 2 | MRtCas _ => 2 | MLookup _ => 2 | MLoad _ => 2
+             | MTypeIDs => 2 | MBuild _ _ => 2 | _ => 1 end.
 Definition ksize (ms : list micro) : nat := list_sum (map msize ms).
 Definition tsize (t : thr) : nat :=
-  (match cur t with Some (_, _, ms) => ksize ms | None => 0 end) + 16 * length (todo t).
+  (match cur t with Some (_, _, ms) => ksize ms | None => 0 end) + 20 * length (todo t).
 Definition csize (c : config) : nat := list_sum (map tsize (thrs c)).
 
 (* ------------------------------------------------------------------ linearizability checker *)
+(* vm_compute is call-by-value: [existsb]/[&&] would evaluate every alternative even after a success.
+   These versions stop at the first success / failure. *)
+Fixpoint ex_lazy {A} (f : A -> bool) (l : list A) : bool :=
+  match l with [] => false | a :: t => if f a then true else ex_lazy f t end.
+Fixpoint all_lazy {A} (f : A -> bool) (l : list A) : bool :=
+  match l with [] => true | a :: t => if f a then all_lazy f t else false end.
+
 Fixpoint remove_at {A} (n : nat) (l : list A) : list A :=
   match l, n with [], _ => [] | _ :: t, O => t | h :: t, S k => h :: remove_at k t end.
 
@@ -311,14 +329,15 @@ Section Lin.
         match pending with
         | [] => true
         | _ =>
-            existsb (fun k =>
+            ex_lazy (fun k =>
               match nth_error pending k with
               | None => false
               | Some e =>
                   let rest := remove_at k pending in
                   (* e may be linearized first only if no other pending operation returned before e was invoked *)
-                  forallb (fun e' => negb (e_res e' <? e_inv e)) rest &&
-                  (let '(s', r) := step s (e_op e) in ret_eqb r (e_ret e) && lin f s' rest)
+                  if all_lazy (fun e' => negb (e_res e' <? e_inv e)) rest then
+                    (let '(s', r) := step s (e_op e) in if ret_eqb r (e_ret e) then lin f s' rest else false)
+                  else false
               end) (seq 0 (length pending))
         end
     end.
@@ -383,15 +402,16 @@ Fixpoint rlin (rt_relaxed : bool) (fuel : nat) (rs : rspec) (pending : list pev)
       match pending with
       | [] => true
       | _ =>
-          existsb (fun k =>
+          ex_lazy (fun k =>
             match nth_error pending k with
             | None => false
             | Some p =>
                 let e := p_ev p in
                 let rest := remove_at k pending in
-                forallb (fun p' => negb (e_res (p_ev p') <? e_inv e)) rest &&
-                (let '(rs', r) := rspec_step rt_relaxed rs (p_half p, p_id p, e_op e) in
-                 (match p_half p with HMark => true | _ => ret_eqb r (e_ret e) end) && rlin rt_relaxed f rs' rest)
+                if all_lazy (fun p' => negb (e_res (p_ev p') <? e_inv e)) rest then
+                  (let '(rs', r) := rspec_step rt_relaxed rs (p_half p, p_id p, e_op e) in
+                   if (match p_half p with HMark => true | _ => ret_eqb r (e_ret e) end) then rlin rt_relaxed f rs' rest else false)
+                else false
             end) (seq 0 (length pending))
       end
   end.
@@ -412,6 +432,21 @@ Fixpoint split_events (rt_relaxed : bool) (id : nat) (h : list ev) : list pev :=
 Definition rlin_check (rt_relaxed : bool) (s : spec) (h : list ev) : bool :=
   let ps := split_events rt_relaxed 0 h in
   rlin rt_relaxed (length ps) {| r_s := s; r_pend := []; r_rtpend := None |} ps.
+
+(* the same check with the order of the pseudo events supplied from outside (a hint found by an untrusted search):
+   [perm] must be a permutation of the indices of [split_events]; the first candidate then always succeeds *)
+Definition perm_ok (perm : list nat) (n : nat) : bool :=
+  if length perm =? n then all_lazy (fun i => ex_lazy (Nat.eqb i) perm) (seq 0 n) else false.
+
+Definition rlin_check_perm (rt_relaxed : bool) (s : spec) (h : list ev) (perm : list nat) : bool :=
+  let ps := split_events rt_relaxed 0 h in
+  match ps with
+  | [] => true
+  | p0 :: _ =>
+      if perm_ok perm (length ps)
+      then rlin rt_relaxed (length ps) {| r_s := s; r_pend := []; r_rtpend := None |} (map (fun i => nth i ps p0) perm)
+      else false
+  end.
 
 (* 0 = linearizable; 1 = only under the relaxed module-close (F10 class); 2 = only when the runtime close is
    relaxed as well; 3 = not explained at all *)
@@ -455,6 +490,21 @@ Fixpoint classify_all (i : Z) (hs : list (list ev)) : list (Z * Z) :=
               if (d =? 0)%Z then classify_all (i + 1) r else (i, d) :: classify_all (i + 1) r
   end.
 
+(* histories that an untrusted search found not linearizable, with its relaxed explanation as a hint:
+   (history, runtime close relaxed?, order of the pseudo events); result 1 = the relaxed explanation checks *)
+Fixpoint relaxed_all (hs : list (list ev * bool * list nat)) : list Z :=
+  match hs with
+  | [] => []
+  | (h, rt, perm) :: r => (if rlin_check_perm rt spec0 h perm then 1%Z else 0%Z) :: relaxed_all r
+  end.
+
+(* linearizable histories, events already in a witness order: index of every history whose check fails *)
+Fixpoint lin_all (i : Z) (hs : list (list ev)) : list Z :=
+  match hs with
+  | [] => []
+  | h :: r => if lin_check spec0 h then lin_all (i + 1) r else i :: lin_all (i + 1) r
+  end.
+
 (* forced-schedule case: program, per-thread results observed on the real code; the model must be able to produce
    the same results under some schedule of the same kind *)
 Definition rets_of (c : config) (nthreads : nat) : list (list ret) :=
@@ -465,6 +515,28 @@ Fixpoint rets_eqb (a b : list ret) : bool :=
 Fixpoint retss_eqb (a b : list (list ret)) : bool :=
   match a, b with [], [] => true | x :: xr, y :: yr => rets_eqb x y && retss_eqb xr yr | _, _ => false end.
 
-Definition outcome_in_model (atomic : bool) (prog : list (list op)) (obs : list (list ret)) : bool :=
-  existsb (fun c => finished c && retss_eqb (rets_of c (length prog)) obs)
-          (explore atomic (S (csize (init impl0 prog))) (init impl0 prog)).
+Definition add_out (x : list (list ret)) (acc : list (list (list ret))) : list (list (list ret)) :=
+  if existsb (retss_eqb x) acc then acc else x :: acc.
+
+(* the set of per-thread result vectors over all maximal runs (DFS, nothing but the set is kept) *)
+Fixpoint collect (atomic : bool) (fuel : nat) (c : config) (acc : list (list (list ret))) : list (list (list ret)) :=
+  match fuel with
+  | O => acc
+  | S f => match nexts atomic c with
+           | [] => if finished c then add_out (rets_of c (length (thrs c))) acc else acc
+           | ns => fold_left (fun a c' => collect atomic f c' a) ns acc
+           end
+  end.
+
+Definition model_outcomes (atomic : bool) (pre : list op) (prog : list (list op)) : list (list (list ret)) :=
+  let c := init (fst (run_ops impl0 pre)) prog in collect atomic (S (csize c)) c [].
+
+Fixpoint missing_from (i : Z) (outs obs : list (list (list ret))) : list Z :=
+  match obs with
+  | [] => []
+  | o :: r => if existsb (retss_eqb o) outs then missing_from (i + 1) outs r else i :: missing_from (i + 1) outs r
+  end.
+
+(* indices of observed result vectors that no schedule of the model produces *)
+Definition outcomes_missing (atomic : bool) (pre : list op) (prog : list (list op)) (obs : list (list (list ret))) : list Z :=
+  missing_from 0 (model_outcomes atomic pre prog) obs.
